@@ -480,6 +480,62 @@ fn handle(line: &str) -> String {
             }
             out
         }
+        "ttrayon" => {
+            // ttrayon <tables> <buckets> <tasks> <ops per task> <seed>: the table used the way a search uses it — from RAYON POOL
+            // THREADS.  `tables*buckets` keys, one per bucket, are stored first; then half of the pool tasks keep RE-STORING those
+            // same keys (a same-key store replaces in place and never displaces anything) while the other half look them up.
+            // No bucket ever fills, so every lookup must find an entry under exactly its key ("an entry stays retrievable until
+            // displaced"); `lost` counts the lookups that came back empty, `foreign` those that returned another key's entry
+            // (the stored evaluation encodes the key).
+            use rayon::prelude::*;
+            let tables: usize = parts[1].parse().unwrap();
+            let buckets: usize = parts[2].parse().unwrap();
+            let tasks: usize = parts[3].parse().unwrap();
+            let ops: usize = parts[4].parse().unwrap();
+            let seed: u64 = parts[5].parse().unwrap();
+            let t = verif::Table::new(tables, buckets);
+            // key k lands in sub-table k % tables, bucket k % buckets: keys 0..lcm-ish — take one key per (table, bucket) pair
+            let mut keys: Vec<u64> = vec![];
+            let mut seen = std::collections::HashSet::new();
+            let mut k: u64 = 0;
+            while keys.len() < tables * buckets && k < 1_000_000 {
+                let slot = ((k % tables as u64), (k % buckets as u64));
+                if seen.insert(slot) {
+                    keys.push(k);
+                }
+                k += 1;
+            }
+            let ev = |key: u64| -> i32 { (key % 20000) as i32 };
+            for &key in &keys {
+                t.insert(key, 0, 0, 1, 2, ev(key));
+            }
+            let results: Vec<(usize, usize, usize)> = (0..tasks)
+                .into_par_iter()
+                .map(|i| {
+                    use rand::Rng;
+                    let mut rng = ChaCha8Rng::seed_from_u64(seed.wrapping_mul(1000003).wrapping_add(i as u64));
+                    let (mut finds, mut lost, mut foreign) = (0usize, 0usize, 0usize);
+                    for _ in 0..ops {
+                        let key = keys[rng.gen_range(0..keys.len())];
+                        if i % 2 == 0 {
+                            t.insert(key, 0, 0, 1, 2, ev(key));
+                        } else {
+                            finds += 1;
+                            match t.find(key) {
+                                None => lost += 1,
+                                Some((_, _, _, _, e)) if e != ev(key) => foreign += 1,
+                                _ => {}
+                            }
+                        }
+                    }
+                    (finds, lost, foreign)
+                })
+                .collect();
+            let finds: usize = results.iter().map(|r| r.0).sum();
+            let lost: usize = results.iter().map(|r| r.1).sum();
+            let foreign: usize = results.iter().map(|r| r.2).sum();
+            format!("keys={} finds={} lost={} foreign={} entries={}", keys.len(), finds, lost, foreign, t.entries())
+        }
         "search" => {
             // search <seed> <depth|-> <workers|-> <cancel|-> <tables> <buckets> <nhist> <hist fens with _>* <fen...>
             let seed: u64 = parts[1].parse().unwrap();
@@ -656,6 +712,135 @@ fn handle(line: &str) -> String {
                 Err(_) => out.push("search-thread-panicked".into()),
             }
             out.join(" ")
+        }
+        "searchpubov" => {
+            // searchpubov <seed> <depth> <fen...>: the same PUBLIC search as `searchpub`, but while it runs OTHER, unrelated public
+            // searches (start position, depth 1, own fresh memory) are started and joined in the same process; only the events of the
+            // first search are printed, so the line must equal the `searchpub` line of the same arguments
+            let seed: u64 = parts[1].parse().unwrap();
+            let depth = opt_usize(parts[2]);
+            let Some(state) = parse_fen(&parts[3..].join(" ")) else {
+                return "badfen".into();
+            };
+            let (handle, _tx, rx) = Searcher::new().analyze(state, seed, Evaluator::default(), depth, None);
+            for _ in 0..2 {
+                let (h2, _tx2, rx2) = Searcher::new().analyze(State::default(), 7, Evaluator::default(), Some(1), None);
+                while rx2.recv().is_ok() {}
+                let _ = h2.join();
+            }
+            let mut out: Vec<String> = vec![];
+            while let Ok(e) = rx.recv() {
+                match e {
+                    StatusEvent::BestMove { line, evaluation } => {
+                        let l: Vec<String> = line.iter().map(|m| m.as_raw().to_string()).collect();
+                        out.push(format!("best:{}:{}", i32::from(evaluation), l.join(",")));
+                    }
+                    StatusEvent::Progress { depth, nodes_searched, .. } => {
+                        out.push(format!("prog:{}:{}", depth, nodes_searched));
+                    }
+                    StatusEvent::Warning { .. } => out.push("warn".into()),
+                }
+            }
+            match handle.join() {
+                Ok(_) => out.push("joined".into()),
+                Err(_) => out.push("search-thread-panicked".into()),
+            }
+            out.join(" ")
+        }
+        "lazytest" => {
+            // lazytest <seed> <depth> <successor fen with _> <fen...>: the successor is searched first (depth 1), then the position
+            // itself on the returned artifact with the given depth limit while the caller KEEPS the event receiver but reads it
+            // only AFTER the join (a lazy consumer) — with a recorded successor every iteration is a handful of nodes, so a
+            // large depth limit produces hundreds of events
+            let seed: u64 = parts[1].parse().unwrap();
+            let depth = opt_usize(parts[2]);
+            let Some(succ) = parse_fen(&parts[3].replace('_', " ")) else {
+                return "badfen".into();
+            };
+            let Some(state) = parse_fen(&parts[4..].join(" ")) else {
+                return "badfen".into();
+            };
+            let (h1, _tx1, rx1) = Searcher::new().analyze(succ, seed, Evaluator::default(), Some(1), None);
+            while rx1.recv().is_ok() {}
+            let Ok(art) = h1.join() else {
+                return "search-thread-panicked".into();
+            };
+            let (h2, tx2, rx2) = Searcher::new().analyze(state, seed, Evaluator::default(), depth, Some(art));
+            let (done_tx, done_rx) = std::sync::mpsc::channel();
+            std::thread::spawn(move || {
+                let _ = done_tx.send(h2.join().is_ok());
+            });
+            let res = done_rx.recv_timeout(std::time::Duration::from_secs(25));
+            let mut events = 0;
+            let mut bests = 0;
+            for e in rx2.try_iter() {
+                events += 1;
+                if let StatusEvent::BestMove { .. } = e {
+                    bests += 1;
+                }
+            }
+            let _ = tx2;
+            match res {
+                Ok(true) => format!("joined events={} bests={}", events, bests),
+                Ok(false) => "search-thread-panicked".into(),
+                Err(_) => format!("not-joined-after-25s events_queued={}", events),
+            }
+        }
+        "stopseq" => {
+            // stopseq <seed> <depth|-> <delay ms> <n> <successor fen with _>*n <fen...>: the n successors are searched first
+            // (depth 1 each, chained on ONE artifact, as a game or an analysis session does), then the position itself on that
+            // artifact; Stop is sent after the delay and the join is awaited with a watchdog.  When every legal move of the root
+            // leads to a recorded position an iteration costs a handful of nodes at EVERY depth.
+            let seed: u64 = parts[1].parse().unwrap();
+            let depth = opt_usize(parts[2]);
+            let delay: u64 = parts[3].parse().unwrap();
+            let n: usize = parts[4].parse().unwrap();
+            let mut art = None;
+            for k in 0..n {
+                let Some(succ) = parse_fen(&parts[5 + k].replace('_', " ")) else {
+                    return "badfen".into();
+                };
+                let (h1, _tx1, rx1) = Searcher::new().analyze(succ, seed, Evaluator::default(), Some(1), art.take());
+                while rx1.recv().is_ok() {}
+                let Ok(a) = h1.join() else {
+                    return "search-thread-panicked".into();
+                };
+                art = Some(a);
+            }
+            let Some(state) = parse_fen(&parts[5 + n..].join(" ")) else {
+                return "badfen".into();
+            };
+            let (handle, tx, rx) = Searcher::new().analyze(state, seed, Evaluator::default(), depth, art);
+            let reader = std::thread::spawn(move || {
+                let mut bests = 0usize;
+                let mut maxdepth = 0u32;
+                while let Ok(e) = rx.recv() {
+                    match e {
+                        StatusEvent::BestMove { .. } => bests += 1,
+                        StatusEvent::Progress { depth, .. } => maxdepth = maxdepth.max(depth),
+                        _ => {}
+                    }
+                }
+                (bests, maxdepth)
+            });
+            std::thread::sleep(std::time::Duration::from_millis(delay));
+            let t0 = std::time::Instant::now();
+            let _ = tx.send(weechess_engine::searcher::ControlEvent::Stop);
+            let (done_tx, done_rx) = std::sync::mpsc::channel();
+            std::thread::spawn(move || {
+                let _ = done_tx.send(handle.join().is_ok());
+            });
+            let res = done_rx.recv_timeout(std::time::Duration::from_secs(20));
+            let latency = t0.elapsed().as_millis();
+            match res {
+                Ok(true) => {
+                    let (bests, maxdepth) = reader.join().unwrap_or((0, 0));
+                    format!("joined latency_ms={} bests={} iterations={}", latency, bests, maxdepth)
+                }
+                Ok(false) => "search-thread-panicked".into(),
+                // the search thread is still running: leave it behind (the process ends with the batch)
+                Err(_) => "not-joined-20s-after-stop".into(),
+            }
         }
         "stoptest" => {
             // stoptest <seed> <depth|-> <delay ms> <drop receiver 0|1> <stops> <fen...>
